@@ -12,7 +12,8 @@ Monitors (post-conditions on every execution of the real methods, wherever the c
   Signal.running_average  == window mean over a copy of the pre-state
 Relations between executions (driver, after the monitored calls returned): additivity F(x+y)=F(x)+F(y) over the whole
 record per filter type x remove_gibbs option, homogeneity, cut-off container independence, idempotence of detrending,
-invariance under adding a degree-k polynomial first, method == function.
+invariance under adding a degree-k polynomial first, method == function; f(A); f(B); f(A); histories with deepcopy /
+pickle / copy.copy, attribute assignments and refused calls (object unchanged, later calls == fresh twin).
 """
 import math
 
@@ -60,10 +61,25 @@ RULE = ('cases: (1) sinusoids amp*sin(2 pi f t+phi), f = edge x {0.1,0.3,0.5,0.8
         '1e-250..1e289, detrending to 1e-290..1e250 so that transients / added polynomials stay finite) and sinusoid '
         'amplitudes 1e-250..1e280; narrow band-pass designs (relative bandwidth 2..10 %, orders 3-4, record length from '
         'the ring-down time 25/(pi bw sin(pi/2N))) in the sinusoid and linear workloads; detrending of degree 3-4 over '
-        'durations > 1000 s and < 1 ms. distinct = digest of the complete parameter set of the case.')
+        'durations > 1000 s and < 1 ms. (9) round 3: sinusoids next to corners at the ENDS of the normalised cut-off range - '
+        'low / high / upper band-pass corner at (1-e) x Nyquist with e log-uniform 1e-4..1e-2 (top 1 %) and 1e-2..0.2, low / '
+        'high / lower band-pass corner at 1e-4..1e-3 x Nyquist, band-pass spanning both ends, band-pass of relative bandwidth '
+        '0.1..2 %; test frequency at warped ratios 0.3..4 of the corner (0.95, 1, 1.05 included), nice and 1/k time steps, '
+        'all orders x gibbs options x container forms, record length from the slowest pole (30 time constants before the '
+        'middle half), <= 1.3e6 samples; pinned top-1 % designs; the same corner regions in 15 % of the additivity cases; '
+        'silent (all-zero), constant and strictly positive records in every record workload; histories with pickle round '
+        'trips, copy.copy + reset_values, deepcopy, continuing with the copy OR the original (the other one re-checked and '
+        'used once more at the end), assignments to .values / .dt / .label / .smooth_fa_freqs (list, tuple, ndarray; 1, 2, 3, '
+        'n entries) and refused calls (series / signal mismatch, corner >= Nyquist, 3 corners, scalar cut-off) in between; '
+        'f(A); f(B); f(A) with B of the same or another shape and the same or other option values; time steps that differ '
+        'by 0.1 % in add_signal. distinct = digest of the complete parameter set of the case.')
 ASSUMPTIONS = ['finite real records; integer records of any width are in domain (the library must not compute in them)',
-               'cut-offs 0 < lo < hi < 0.8 Nyquist; gain clause: the middle half starts >= 15 periods of the lowest '
-               'cut-off and >= 25 ring-down time constants of the band after the record start; relative bandwidth >= 2 %',
+               'cut-offs 1e-4 Nyquist <= lo < hi <= (1 - 1e-4) Nyquist (general workload: < 0.8 Nyquist; the ends are driven by '
+               'the corner-* classes; the bound is the record length of 1.3e6 samples, not the conditioning of the filter: it '
+               'follows the analytic gain to 1e-8 of the amplitude down to 3e-5 Nyquist); gain clause: the middle half starts >= '
+               '15 periods of the lowest cut-off, >= 25 ring-down time constants of the band and (corner classes) >= 30 time '
+               'constants 1/(pi d sin(pi/2N)) samples of the slowest pole (d = distance of the nearest corner from 0 or from '
+               'Nyquist in units of Nyquist) after the record start; relative bandwidth >= 0.1 % (gain), >= 2 % (relations)',
                'relations between filter runs allow scale*(1e-9 + 8 eps/w^2), w = smaller of lowest normalised corner and '
                'normalised bandwidth; no absolute floors: every tolerance is relative (running-average floor 1e-321)',
                'records longer than the filtfilt edge padding (3*(2N+1) samples band, 3*(N+1) low/high); shorter ones, '
@@ -72,8 +88,13 @@ ASSUMPTIONS = ['finite real records; integer records of any width are in domain 
                'running average: each output is judged relative to its own window (16 eps x window length x max|x| in '
                'the window); detrending and filter relations relative to the global scale x conditioning',
                'a real width w >= 1 means floor(w/2) positions on each side',
-               'time-step mismatch is tested with steps that differ by >= 1 % (no knife edge)',
+               'time-step mismatch is tested with steps that differ by >= 0.1 % (no knife edge)',
                'argument purity is not demanded when the caller passes the object itself / its own buffer to an add',
+               'a refused call / an assignment through a public attribute name leaves values, dt and npts as they were or '
+               'updates them completely; whether a call outside the quantifier (corner >= Nyquist, 3 corners) is refused is '
+               'not judged; a shallow copy is only used after reset_values has rebound its values',
+               'f(A); f(B); f(A): third == first to 1e-12 of max|result| (not bit-for-bit: summation order may depend on '
+               'buffer alignment)',
                'oracles vf/oracles/butter.py are correct']
 
 CTX = None
@@ -228,6 +249,13 @@ def _check_sine(ctx, p, pre, after, kwargs):
               lambda: _witness(fn='butter_pass', gain_expected=g, err=err, allowed=allowed,
                                at=(None if idx is None else int(idx[0]) + i0)),
               'filtered interior deviates from |H(f)|^2*input by %.3g (allowed %.3g*amp); %s' % (err, GAIN_TOL, desc))
+    if p.get('edge'):
+        # the same verdict counted per region of the normalised cut-off range (MIN_EVALS guards every region)
+        ctx.check(ok, 'butter.sine.corner-%s.interior==|H|^2*sine' % p['edge'],
+                  lambda: _witness(fn='butter_pass', gain_expected=g, err=err, allowed=allowed,
+                                   corners_over_nyquist=[None if v is None else 2.0 * v * p['dt'] for v in (p['lo'], p['hi'])]),
+                  'corner at the end of the normalised range (%s): filtered interior deviates from |H(f)|^2*input of the '
+                  'REQUESTED cut-offs by %.3g (allowed %.3g*amp); %s' % (p['edge'], err, GAIN_TOL, desc))
     fit = O.fit_quadrature(after, i0, i1, p['dt'], p['f'], p['phi']) if _finite(after) else None
     if fit is None:
         ctx.observe('butter.sine.fit-skipped')
@@ -683,9 +711,10 @@ def _filtered(eqsig, p, values, container=None, ctx=None, cut_obj=None):
 
 def _lin_allowed(p, scale):
     """Rounding allowance of a relation between filter runs: the recursion amplifies rounding by ~1/wn^2 for a
-    normalised edge wn (poles at distance ~wn from the unit circle)."""
+    normalised edge wn (poles at distance ~wn from the unit circle); a corner at (1-e) x Nyquist is the mirror image
+    (z -> -z) of one at e x Nyquist, so wn is the distance of the nearest corner from either end of the band."""
     nyq = 0.5 / p['dt']
-    wn = min(v for v in (p['lo'], p['hi']) if v is not None) / nyq
+    wn = min(min(v / nyq, 1.0 - v / nyq) for v in (p['lo'], p['hi']) if v is not None)
     if p['lo'] is not None and p['hi'] is not None:
         wn = min(wn, (p['hi'] - p['lo']) / nyq)
     return scale * (1e-9 + 8 * np.finfo(float).eps / (wn * wn))
@@ -1016,45 +1045,160 @@ def _apply_op(eqsig, sig, op):
         raise ValueError(kind)
 
 
+FORK_OPS = ('deepcopy', 'pickle', 'copy')
+REFUSED_OPS = ('bad-series', 'bad-signal', 'bad-butter')
+
+
+def _state_of(sig):
+    return np.array(sig.values, copy=True), sig.dt, sig.npts
+
+
+def _same_state(sig, st):
+    v = np.asarray(sig.values)
+    return (v.shape == st[0].shape and v.dtype == st[0].dtype and bool(np.array_equal(v, st[0])) and sig.dt == st[1]
+            and sig.npts == st[2] and len(v) == sig.npts)
+
+
+def _as_container(values, container):
+    v = np.asarray(values)
+    return v.tolist() if container == 'list' else (tuple(v.tolist()) if container == 'tuple' else v)
+
+
+def _refused_call(eqsig, sig, op):
+    """A call that the clean library refuses (or that is outside the quantifier and may be refused)."""
+    kind = op['op']
+    if kind == 'bad-series':
+        sig.add_series(_as_container(op['series'], op.get('container', 'ndarray')))
+    elif kind == 'bad-signal':
+        how = op['how']
+        if how == 'non-signal':
+            sig.add_signal(np.asarray(op['series']))
+        else:
+            sig.add_signal(_mk_sig(eqsig, op.get('other_cls', 'Signal'), np.asarray(op['series']),
+                                   sig.dt * (op['dt_factor'] if how == 'dt' else 1.0)))
+    else:
+        nyq = 0.5 / sig.dt
+        how = op['how']
+        if how == 'corner>=nyquist':
+            cut = {'low': (None, op['factor'] * nyq), 'high': (op['factor'] * nyq, None),
+                   'band': (0.1 * nyq, op['factor'] * nyq)}[op['ftype']]
+        elif how == 'three-corners':
+            cut = [0.1 * nyq, 0.2 * nyq, 0.3 * nyq]
+        else:
+            cut = 0.2 * nyq
+        kw = {'filter_order': op['order']}
+        if op.get('gibbs') is not None:
+            kw['remove_gibbs'] = op['gibbs']
+        sig.butter_pass(cut, **kw)
+
+
+def _twin_call(eqsig, ctx, p, sig, op, j):
+    """op on sig and on a fresh object holding a copy of sig's current values; False after an exception."""
+    twin = _mk_sig(eqsig, p.get('cls', 'AccSignal'), np.array(sig.values, copy=True), sig.dt)
+    try:
+        _apply_op(eqsig, twin, op)
+        _apply_op(eqsig, sig, op)
+    except Exception as e:
+        ctx.exception('history.call==same-call-on-fresh-object', _witness(op=op['op']), e)
+        return False
+    a, b = np.asarray(sig.values), np.asarray(twin.values)
+    ok = a.shape == b.shape and sig.npts == twin.npts and sig.dt == twin.dt and \
+        tol.close(a, b, scale=float(np.max(np.abs(b))) if b.size else 0.0, rtol=EXACT_RTOL)
+    ctx.check(ok, 'history.call==same-call-on-fresh-object', lambda: _witness(op=op['op']),
+              'call %d (%s) on the object with a history differs from the same call on a fresh object holding '
+              'the same values' % (j, op['op']))
+    return True
+
+
 def case_history(eqsig, ctx, p):
-    """Several monitored calls on ONE object in random order with repeats, interleaved with reads of cached quantities
-    and resets to other lengths. Every call is judged by the monitors against the values at call entry; in addition
-    the same call on a fresh object built from a copy of those values must give the same record."""
+    """Several monitored calls on ONE object in random order with repeats, interleaved with reads of cached quantities,
+    resets to other lengths, deepcopy / pickle round trip / copy.copy (+ reset_values) after which the history goes on
+    with the copy or with the original while the other one must stay what it was, assignments through the public
+    attribute names, and calls that are refused. Every call is judged by the monitors against the values at call entry;
+    in addition the same call on a fresh object built from a copy of those values must give the same record."""
+    import copy
+    import pickle
     sig = _mk_sig(eqsig, p.get('cls', 'AccSignal'), np.asarray(p['x']), p['dt'])
-    sources = []
+    partners = []           # (object, its state when the two parted, how)
     for j, op in enumerate(p['ops'] + [{'op': 'end'}]):
-        if op['op'] == 'end':
-            _begin('history', p, call=j)
-            for src, v0, dt0, n0 in sources:
-                ctx.check(np.array_equal(np.asarray(src.values), v0) and src.dt == dt0 and src.npts == n0,
-                          'history.deepcopy-source-unchanged', lambda: _witness(op='deepcopy'),
-                          'calls on a deepcopy of a signal changed the signal it was copied from')
-            _end()
-            break
+        kind = op['op']
         _begin('history', p, call=j)
         try:
-            if op['op'] in ('read', 'reset'):
+            if kind == 'end':
+                for q, (src, st, how) in enumerate(partners):
+                    ctx.check(_same_state(src, st), 'history.%s-source-unchanged' % how, lambda: _witness(op=how),
+                              'calls on one of the two objects related by %s changed the other one' % how)
+                    # the one that was left alone still behaves like a fresh object (both orders: copy first / original first)
+                    fin = (p.get('final_ops') or [])
+                    if q < len(fin) and _same_state(src, st):
+                        _twin_call(eqsig, ctx, p, src, fin[q], j)
+                break
+            if kind in ('read', 'reset'):
                 _apply_op(eqsig, sig, op)
                 continue
-            if op['op'] == 'deepcopy':
-                # go on with a copy made by deepcopy of the warm object; the source must stay what it was
-                import copy
-                sources.append((sig, np.array(sig.values, copy=True), sig.dt, sig.npts))
-                sig = copy.deepcopy(sig)
+            if kind in FORK_OPS:
+                try:
+                    if kind == 'deepcopy':
+                        other = copy.deepcopy(sig)
+                    elif kind == 'pickle':
+                        other = pickle.loads(pickle.dumps(sig, protocol=op.get('protocol', pickle.HIGHEST_PROTOCOL)))
+                    else:
+                        # a shallow copy shares the value buffer by definition: rebind the copy's values first
+                        other = copy.copy(sig)
+                        other.reset_values(np.asarray(op['values']))
+                        if np.shares_memory(other.values, sig.values):
+                            ctx.observe('history.copy-still-shares-buffer-after-reset_values')
+                            continue
+                    if kind != 'copy':
+                        ctx.check(_same_state(other, _state_of(sig)) and type(other) is type(sig),
+                                  'history.%s-equals-source' % kind, lambda: _witness(op=kind),
+                                  'the %s of a signal differs from it in values / dt / npts / class' % kind)
+                except Exception as e:
+                    ctx.exception('history.%s-source-unchanged' % kind, _witness(op=kind), e)
+                    return
+                if op.get('keep') == 'original':
+                    partners.append((other, _state_of(other), kind))
+                else:
+                    partners.append((sig, _state_of(sig), kind))
+                    sig = other
                 continue
-            twin = _mk_sig(eqsig, p.get('cls', 'AccSignal'), np.array(sig.values, copy=True), p['dt'])
-            try:
-                _apply_op(eqsig, twin, op)
-                _apply_op(eqsig, sig, op)
-            except Exception as e:
-                ctx.exception('history.call==same-call-on-fresh-object', _witness(op=op['op']), e)
+            if kind == 'assign':
+                before = _state_of(sig)
+                if op['attr'] == 'label':
+                    new = op['value']
+                elif op['attr'] == 'dt':
+                    new = float(op['value'])
+                else:
+                    new = _as_container(op['value'], op.get('container', 'ndarray'))
+                try:
+                    setattr(sig, op['attr'], new)
+                    ctx.observe('history.assign-%s-returned' % op['attr'])
+                except Exception as e:
+                    ctx.observe('history.assign-%s-raised-%s' % (op['attr'], type(e).__name__))
+                ok = _same_state(sig, before)
+                if not ok and op['attr'] == 'values':      # or taken over completely
+                    nv = np.asarray(op['value'], dtype=float)
+                    ok = (np.array_equal(np.asarray(sig.values, dtype=float), nv) and sig.npts == len(nv)
+                          and len(sig.time) == len(nv) and sig.dt == before[1])
+                if not ok and op['attr'] == 'dt':
+                    ok = sig.dt == float(op['value']) and _same_state(sig, (before[0], sig.dt, before[2]))
+                ctx.check(ok, 'history.attribute-assignment-all-or-nothing', lambda: _witness(op='assign', attr=op['attr']),
+                          'after assigning to .%s the object is neither what it was nor completely updated: npts=%r '
+                          'len(values)=%d len(time)=%d dt=%r' % (op['attr'], sig.npts, len(sig.values), len(sig.time), sig.dt))
+                continue
+            if kind in REFUSED_OPS:
+                before = _state_of(sig)
+                try:
+                    _refused_call(eqsig, sig, op)
+                    ctx.observe('history.%s-accepted' % kind)     # add_*: the monitor has recorded the violation
+                except Exception:
+                    ctx.check(_same_state(sig, before), 'history.refused-call-leaves-object-unchanged',
+                              lambda: _witness(op=kind, how=op.get('how')),
+                              'a refused %s call (%s) left the object changed: npts=%r len(values)=%d dt=%r'
+                              % (kind, op.get('how'), sig.npts, len(sig.values), sig.dt))
+                continue
+            if not _twin_call(eqsig, ctx, p, sig, op, j):
                 return
-            a, b = np.asarray(sig.values), np.asarray(twin.values)
-            ok = a.shape == b.shape and sig.npts == twin.npts and sig.dt == twin.dt and \
-                tol.close(a, b, scale=float(np.max(np.abs(b))) if b.size else 0.0, rtol=EXACT_RTOL)
-            ctx.check(ok, 'history.call==same-call-on-fresh-object', lambda: _witness(op=op['op']),
-                      'call %d (%s) on the object with a history differs from the same call on a fresh object holding '
-                      'the same values' % (j, op['op']))
         finally:
             _end()
 
@@ -1068,27 +1212,35 @@ def case_state(eqsig, ctx, p):
     arrays themselves."""
     x, y = np.asarray(p['x']), np.asarray(p['y'])
     op = p['call']
+    op_b = p.get('call_b') or op          # the call in between: same recipe, possibly other option values / another shape
     name = op['op']
     clause = 'state.first-result-unchanged-after-second-call.%s' % name
     x_in, y_in = _apply_form(x, p.get('form')), _apply_form(y, p.get('form'))
     fx, fy = _freeze(x_in), _freeze(y_in)
     _begin('state', p)
     try:
-        def run(v):
+        def run(v, o=op):
             if name == 'poly-fn':
-                return None, eqsig.fns.generic.remove_poly(v, op['k'])
+                return None, eqsig.fns.generic.remove_poly(v, o['k'])
             s = _mk_sig(eqsig, p.get('cls', 'AccSignal'), v, p['dt'])
-            _apply_op(eqsig, s, op)
+            _apply_op(eqsig, s, o)
             return s, s.values
         try:
             twin = _mk_sig(eqsig, p.get('cls', 'AccSignal'), x_in, p['dt'])
             t0 = np.array(twin.values, copy=True)
             s1, v1 = run(x_in)
             c1 = np.array(v1, copy=True)
-            s2, v2 = run(y_in)
+            s2, v2 = run(y_in, op_b)
+            s3, v3 = run(x_in)          # f(A); f(B); f(A): the third result depends on the arguments only
         except Exception as e:
             ctx.exception(clause, _witness(op=name), e)
             return
+        v3 = np.asarray(v3)
+        ctx.check(v3.shape == c1.shape and v3.dtype == c1.dtype
+                  and tol.close(v3, c1, scale=float(np.max(np.abs(c1))) if c1.size else 0.0, rtol=EXACT_RTOL),
+                  'state.third-call==first-call.%s' % name, lambda: _witness(op=name),
+                  'f(A); f(B); f(A): the third %s result differs from the first (same record, same arguments; B: %s)'
+                  % (name, 'other options / shape' if p.get('call_b') else 'same options'))
         same = v1.dtype == c1.dtype and v1.shape == c1.shape and np.array_equal(v1, c1, equal_nan=v1.dtype.kind == 'f')
         if s1 is not None:
             same = same and np.array_equal(np.asarray(s1.values), c1, equal_nan=c1.dtype.kind == 'f')
@@ -1234,6 +1386,124 @@ def gen_sine(rng, ftype, gibbs, order, ctx=None):
     return None
 
 
+MAX_EDGE_N = 1300000
+EDGE_KINDS = ('top-1%', 'top-20%', 'below-1e-3', 'both-ends', 'narrow-band')
+EDGE_RATIOS = (0.3, 0.5, 0.8, 0.95, 1.0, 1.05, 1.25, 2.0, 4.0)
+EDGE_LO, EDGE_EPS = 1e-4, 1e-4      # range of validity: corners in [1e-4, 1 - 1e-4] x Nyquist (bounded by MAX_EDGE_N samples)
+
+
+def gen_edge_sine(rng, ftype, gibbs, order, kind, ctx=None):
+    """Sinusoids next to corners at the ENDS of the normalised cut-off range (checklist 26):
+    'top-1%'     low-pass / high-pass / upper band-pass corner at (1-e) x Nyquist, e log-uniform in [1e-4, 1e-2]
+    'top-20%'    the same with e in [1e-2, 0.2] (the gap between the general workload, < 0.8 Nyquist, and the top 1 %)
+    'below-1e-3' low-pass / high-pass / lower band-pass corner at w x Nyquist, w log-uniform in [1e-4, 1e-3]
+    'both-ends'  band-pass from below 1e-3 to the top 1 % of the band (low / high-pass: one of the two at random)
+    'narrow-band' band-pass (whatever the stratum's type) of relative bandwidth 0.1 % .. 2 % centred at 0.05 .. 0.9 x Nyquist,
+                 test frequency at / between / just outside the corners
+    Test frequency: the warped ratio tan(pi f dt) / tan(pi corner dt) drawn from EDGE_RATIOS (0.3 .. 4: next to the corner
+    on both sides - in plain frequency the top corners leave no room above them), 10 % anywhere in the band.
+    Record: the middle half starts >= 30 time constants 1/(pi d sin(pi/2N)) samples (d = distance of the nearest corner
+    from 0 or from Nyquist, in units of Nyquist: the slowest pole of the design) and >= 15 periods of the lowest cut-off
+    after the record start, covers >= 2 beat periods of a test frequency next to Nyquist and >= 25 ring-down times of the
+    band; at most MAX_EDGE_N samples, which is what limits the range to [1e-4, 1 - 1e-4] x Nyquist (the filter itself
+    follows the analytic gain to 1e-8 of the amplitude down to 3e-5 x Nyquist: probe in selftest/builders/c17_round3.md)."""
+    for _ in range(60):
+        r = rng.random()
+        if r < 0.5:
+            dt = float(SINE_DT[int(rng.choice(len(SINE_DT), p=SINE_DT_P))])
+        elif r < 0.75:
+            dt = 1.0 / gen.RECIP_K[int(rng.integers(len(gen.RECIP_K)))]
+        else:
+            dt = float(rng.choice([0.03, 0.007, 0.006, 0.0125, 0.07, 0.011]))
+        nyq = 0.5 / dt
+        k = kind
+        if k == 'narrow-band':
+            ftype = 'band'
+        if k == 'both-ends' and ftype != 'band':
+            k = 'top-1%' if rng.random() < 0.5 else 'below-1e-3'
+        eps = float(10.0 ** rng.uniform(math.log10(EDGE_EPS), -2)) if k in ('top-1%', 'both-ends') else \
+            float(10.0 ** rng.uniform(-2, math.log10(0.2)))
+        wlo = float(10.0 ** rng.uniform(math.log10(EDGE_LO), -3))
+        top = (1.0 - eps) * nyq
+        if k == 'narrow-band':
+            f0 = float(10.0 ** rng.uniform(math.log10(0.05), math.log10(0.9))) * nyq
+            rbw = float(10.0 ** rng.uniform(-3, math.log10(0.02)))
+            lo, hi = f0 * (1 - rbw / 2), f0 * (1 + rbw / 2)
+        elif ftype == 'low':
+            lo, hi = None, (wlo * nyq if k == 'below-1e-3' else top)
+        elif ftype == 'high':
+            lo, hi = (wlo * nyq if k == 'below-1e-3' else top), None
+        elif k == 'below-1e-3':
+            lo = wlo * nyq
+            hi = lo * float(rng.choice([3.0, 30.0])) if rng.random() < 0.5 else float(rng.choice([0.1, 0.5, 0.79])) * nyq
+        elif k == 'both-ends':
+            lo, hi = wlo * nyq, top
+        else:
+            cands = [c for c in (0.05, 0.2, 0.5, 0.75, 0.9) if c * 1.05 < 1.0 - eps]
+            lo, hi = float(rng.choice(cands)) * nyq, top
+        corners = [v for v in (lo, hi) if v is not None]
+        d = min(min(v / nyq, 1.0 - v / nyq) for v in corners)
+        tau = 1.0 / (math.pi * d * math.sin(math.pi / (2 * order)))
+        n = max(1024, int(math.ceil(4 * 30.0 * tau)), int(math.ceil(60.0 / (min(corners) * dt))))
+        if ftype == 'band':
+            n = max(n, int(math.ceil(4 * 25.0 / (math.pi * (hi - lo) * math.sin(math.pi / (2 * order))) / dt)))
+        # the corner the test frequency sits next to: the one at the end of the range
+        fc = max(corners, key=lambda v: -min(v / nyq, 1.0 - v / nyq))
+        if k == 'narrow-band':
+            ratio = None
+            f = float(rng.choice([lo, lo, hi, hi, math.sqrt(lo * hi), 0.5 * (lo + hi), lo * (1 - rbw), hi * (1 + rbw),
+                                  lo + 0.25 * (hi - lo), lo * (1 - 5 * rbw), hi * (1 + 5 * rbw)]))
+        elif rng.random() < 0.1:
+            f = float(rng.choice([0.002, 0.1, 0.5, 0.9, 0.995])) * nyq
+            ratio = None
+        else:
+            ratio = float(EDGE_RATIOS[int(rng.integers(len(EDGE_RATIOS)))])
+            f = math.atan(ratio * math.tan(math.pi * fc * dt)) / (math.pi * dt)
+        if not 0.0 < f < nyq * (1 - 1e-6):
+            continue
+        if f > 0.5 * nyq:
+            n = max(n, int(math.ceil(4.0 / (1.0 - f / nyq))))      # >= 2 beat periods inside the middle half
+        else:
+            n = max(n, int(math.ceil(4 * 3.0 / (f * dt))))            # >= 3 periods of the test frequency there
+        n += int(rng.integers(0, 2))
+        if n > MAX_EDGE_N:
+            if ctx is not None:
+                ctx.observe('sine-edge.design-redrawn-needs->%d-samples' % MAX_EDGE_N)
+            continue
+        if ftype == 'band':
+            container = ['tuple', 'list', 'ndarray'][int(rng.integers(3))]
+        else:
+            container = ['tuple', 'list'][int(rng.integers(2))]
+        ts = float(rng.choice([1.0, 1e-6, 5e4])) if rng.random() < 0.4 else 1.0
+        dt, f = dt * ts, f / ts
+        lo = None if lo is None else lo / ts
+        hi = None if hi is None else hi / ts
+        amp = float(rng.choice([1.0, 1.0, 0.01, 250.0, 1e-12, 1e12]))
+        return {'n': n, 'dt': dt, 'f': float(f), 'phi': float(rng.uniform(0, 2 * math.pi)), 'amp': amp,
+                'offset': (amp * float(rng.choice([-100.0, -3.0, 0.5, 3.0, 100.0])) if rng.random() < 0.15 else None),
+                'lo': lo, 'hi': hi, 'order': int(order), 'pass_order': bool(rng.random() < 0.5), 'gibbs': gibbs,
+                'gibbs_extra': int(rng.choice([0, 2])) if (gibbs is not None and n <= 50000 and rng.random() < 0.15) else None,
+                'gibbs_range': int(rng.choice([1, 7, 200])) if (gibbs is not None and rng.random() < 0.15) else None,
+                'container': container, 'cut_kw': bool(rng.random() < 0.3), 'edge': k, 'edge_ratio': ratio,
+                'dtype': 'float32' if (n <= 200000 and rng.random() < 0.1) else 'float64',
+                'form': FORMS[int(rng.integers(len(FORMS)))] if (n <= 50000 and rng.random() < 0.3) else 'array',
+                'cls': 'AccSignal' if rng.random() < 0.7 else 'Signal'}
+    return None
+
+
+def pinned_edge_sines():
+    """Corners in the top 1 % of the band with a test frequency next to them, one per type (always run)."""
+    out = []
+    for j, (lo, hi, f, order, g) in enumerate([(None, 49.8, 49.6, 4, None), (None, 49.7, 49.0, 2, 'mid'),
+                                               (49.8, None, 49.7, 3, None), (10.0, 49.6, 49.5, 4, 'start'),
+                                               (None, 49.95, 49.9, 1, 'end'), (0.05, 49.9, 49.85, 2, None)]):
+        out.append({'n': 140000 if lo == 0.05 else 60000, 'dt': 0.01, 'f': f, 'phi': 0.3 + j, 'amp': 1.0, 'lo': lo,
+                    'hi': hi, 'order': order, 'pass_order': True, 'gibbs': g,
+                    'container': 'ndarray' if (lo is not None and hi is not None) else 'tuple', 'cls': 'AccSignal',
+                    'edge': 'top-1%' if lo != 0.05 else 'both-ends'})
+    return out
+
+
 INT_BAND_DESIGNS = [(1, 10), (2, 25), (1, 2), (5, 20), (1, 15), (2, 8), (3, 12)]
 SEQ_CONTAINERS = ['ndarray', 'ndarray-int', 'list', 'tuple']
 
@@ -1295,6 +1565,7 @@ LIN_N = [30, 40, 63, 64, 65, 100, 127, 128, 129, 333, 1000, 1023, 1024, 1025, 20
 LONG_N = [65535, 65536, 65537, 70001, 131073]          # past 2**16: a few per quick run
 EXTREME_SHARE = [0.1]      # share of float64 records at extreme scales (1e-300..1e300)
 DYNRANGE_SHARE = [0.12]     # share of float64 records with a huge dynamic range inside the record
+SILENT_SHARE = [0.06]       # share of float64 records that are all zero / constant
 DTYPES = ['float64', 'float32', 'int64', 'int32', 'int16', 'int8', 'uint8', 'uint16']
 
 
@@ -1367,7 +1638,7 @@ def dynrange_record(rng, n):
     return x, 'dynrange-%s-then-%s' % (wname, sname)
 
 
-SHAPES = ['monotone', 'one-sided-negative', 'tail-heavy', 'alternating+offset', 'single-changed-sample', 'zeros-inside',
+SHAPES = ['monotone', 'one-sided-negative', 'one-sided-positive', 'tail-heavy', 'alternating+offset', 'single-changed-sample', 'zeros-inside',
           'both-ends-extreme', 'single-step']
 
 
@@ -1379,6 +1650,8 @@ def shape_record(rng, n, shape=None):
         x = np.cumsum(np.abs(rng.normal(size=n))) * a * float(rng.choice([-1, 1])) + a * rng.normal()
     elif shape == 'one-sided-negative':
         x = -(np.abs(rng.normal(size=n)) + rng.uniform(0, 2)) * a
+    elif shape == 'one-sided-positive':          # strictly one-signed: no zero, no sign change
+        x = (np.abs(rng.normal(size=n)) + rng.uniform(0.01, 2)) * a
     elif shape == 'tail-heavy':
         x = np.zeros(n)
         m = max(1, n // int(rng.integers(3, 9)))
@@ -1449,6 +1722,11 @@ def typed_record(rng, n, dtype, frac=1.0, dyadic=False):
         return x, 'float32-%s%s' % (cls, tag)
     if rng.random() < DYNRANGE_SHARE[0]:
         return dynrange_record(rng, n)
+    if rng.random() < SILENT_SHARE[0]:
+        # a silent (all-zero) record / a record that never changes are valid input (checklist 27)
+        if rng.random() < 0.6:
+            return np.zeros(n), 'silent-all-zero'
+        return np.full(n, float(rng.choice([-2.0, 0.5, 1e-9, 3e7]))), 'constant-nonzero'
     if rng.random() < 0.2:
         return shape_record(rng, n)
     if rng.random() < EXTREME_SHARE[0]:
@@ -1492,11 +1770,24 @@ def gen_linear(rng, ftype, gibbs):
     else:
         lo, hi = min(wn_lo * 3, 0.9) * nyq, None
     order = int(rng.integers(1, 5))
+    edge = ''
     if ftype == 'band' and order >= 3 and rng.random() < 0.25:
         # narrow band-pass, relative bandwidth 2..10 %, lower corner >= 0.01 Nyquist
         f0 = float(10.0 ** rng.uniform(-1.9, -0.3)) * nyq
         rbw = float(rng.uniform(0.02, 0.1))
         lo, hi = f0 * (1 - rbw / 2), f0 * (1 + rbw / 2)
+    elif rng.random() < 0.15:
+        # ends of the normalised cut-off range (checklist 26): within 1 % of Nyquist / below 1e-3 of it
+        top = (1.0 - float(10.0 ** rng.uniform(-4, -2))) * nyq
+        bot = float(10.0 ** rng.uniform(-4, -3)) * nyq
+        which = int(rng.integers(3))
+        if ftype == 'band':
+            lo, hi = [(lo if lo < 0.9 * top else 0.5 * top, top), (bot, max(hi, 3 * bot)), (bot, top)][which]
+        elif ftype == 'low':
+            lo, hi = None, (bot if which == 1 else top)
+        else:
+            lo, hi = (bot if which == 1 else top), None
+        edge = ['top-1%', 'below-1e-3', 'both-ends' if ftype == 'band' else 'top-1%'][which]
     r = rng.random()
     if gibbs is None and r < 0.1:
         n = 3 * (order * (2 if ftype == 'band' else 1) + 1) + 1 + int(rng.integers(0, 2))   # minimal accepted length
@@ -1546,7 +1837,8 @@ def gen_linear(rng, ftype, gibbs):
     return {'x': x, 'y': y, 'c': c, 'dt': float(dt), 'lo': lo, 'hi': hi, 'order': order,
             'pass_order': bool(rng.random() < 0.5), 'gibbs': gibbs, 'gibbs_extra': g_extra, 'gibbs_range': g_range,
             'container': cont, 'cut_kw': bool(rng.random() < 0.3), 'form': FORMS[int(rng.integers(len(FORMS)))]
-            if rng.random() < 0.5 else 'array', 'cls': 'AccSignal' if rng.random() < 0.5 else 'Signal', 'classes': [cx, cy]}
+            if rng.random() < 0.5 else 'array', 'cls': 'AccSignal' if rng.random() < 0.5 else 'Signal', 'classes': [cx, cy],
+            'edge': edge}
 
 
 def gen_container(rng, ftype):
@@ -1597,7 +1889,11 @@ def gen_detrend(rng, k):
     else:
         cls = ['noise', 'walk', 'quake', 'sine', 'intnoise', 'plateau', 'step', 'ramp', 'dynrange', 'shape', 'shape'][
             int(rng.integers(11))]
-        if cls == 'dynrange':
+        silent = rng.random() < 0.05
+        if silent:
+            x, cls = (np.zeros(n), 'silent-all-zero') if rng.random() < 0.6 else \
+                (np.full(n, float(rng.choice([-2.0, 0.5, 1e-9, 3e7]))), 'constant-nonzero')
+        elif cls == 'dynrange':
             x, cls = dynrange_record(rng, n)
         elif cls == 'shape':
             x, cls = shape_record(rng, n)
@@ -1607,19 +1903,21 @@ def gen_detrend(rng, k):
             x = x * 10.0 ** rng.uniform(-2, 2)
         else:
             x, _ = gen.record(rng, n, cls=cls)
-        if rng.random() < 0.25:
+        if rng.random() < 0.25 and not silent:
             x = x.copy()
             x[0] = x[0] + rng.uniform(3, 30) * np.std(x) * float(rng.choice([-1, 1]))
             spike = '+startspike'
         # the last sample must differ strongly from the mean: an end spike of 5..50 standard deviations is added
         # unless the record already ends >= 3 standard deviations away (walks, ramps, steps)
         sd = float(np.std(x))
-        if abs(x[-1] - np.mean(x)) < 3 * sd or sd == 0.0:
+        if silent:
+            pass
+        elif abs(x[-1] - np.mean(x)) < 3 * sd or sd == 0.0:
             mag = max(sd, 1e-3 * float(np.max(np.abs(x))), 1e-12) * rng.uniform(5, 50)
             x = x.copy()
             x[-1] = np.mean(x) + float(rng.choice([-1, 1])) * mag
             spike += '+endspike'
-        r2 = rng.random()
+        r2 = 1.0 if silent else rng.random()
         if r2 < 0.08:
             x = x / float(np.max(np.abs(x))) * 1e-12
             spike += '+amp1e-12'
@@ -1637,6 +1935,8 @@ def gen_detrend(rng, k):
                 x = y * (min(max(m, 1e-290), 1e250) / m)
                 spike += '/extreme-scale' + tag
     amp = max(float(np.max(np.abs(x.astype(float)))), 1e-300)
+    if not np.any(x):
+        amp = 1.0           # silent record: the polynomial added for the invariance relation lives at scale 1
     coefs = (rng.normal(size=k + 1) * amp * 10.0 ** rng.uniform(-1, 3)).tolist()
     dt = float(_wide_dt(rng))
     if k >= 3 and rng.random() < 0.3:
@@ -1702,7 +2002,7 @@ def gen_add(rng, i):
             if m == n:
                 m = n + 1
         elif op == 'signal-baddt':
-            odt = dt * float(rng.choice([2.0, 0.5, 1.01, 0.99, 10.0]))
+            odt = dt * float(rng.choice([2.0, 0.5, 1.01, 0.99, 10.0, 1.001, 0.999]))
         elif op == 'signal-nonsignal':
             ocls = 'not-a-signal' if rng.random() < 0.5 else 'ndarray'
         y, _ = typed_record(rng, m, _pick_dtype(rng, 0.4))
@@ -1770,11 +2070,53 @@ def gen_history(rng):
     dt = float(rng.choice([0.005, 0.01, 0.02]))
     x, cls = gen.record(rng, n, allow_const=False)
     ops = []
+    nfork = 0
     for _ in range(int(rng.integers(5, 11))):
         kind = ['butter', 'poly', 'const', 'series', 'signal', 'runavg', 'reset', 'read', 'butter', 'poly', 'runavg',
-                'read', 'deepcopy'][int(rng.integers(13))]
-        if kind == 'deepcopy':
-            ops.append({'op': 'deepcopy'})
+                'read', 'deepcopy', 'pickle', 'copy', 'assign', 'assign', 'bad-series', 'bad-signal', 'bad-butter'][
+            int(rng.integers(20))]
+        if kind in FORK_OPS:
+            op = {'op': kind, 'keep': 'copy' if rng.random() < 0.6 else 'original'}
+            if kind == 'copy':
+                m = int(rng.choice([n, n // 2 + 20, 2 * n]))
+                op['values'] = gen.record(rng, m, allow_const=False)[0]
+                if op['keep'] == 'copy':
+                    n = m
+            elif kind == 'pickle':
+                op['protocol'] = int(rng.choice([2, 4, 5]))
+            ops.append(op)
+            nfork += 1
+            continue
+        if kind == 'assign':
+            attr = ['values', 'values', 'dt', 'label', 'smooth_fa_freqs'][int(rng.integers(5))]
+            if attr == 'values':
+                m = int(rng.choice([n, n, 1, 2, 3, n + 7, max(n // 2, 4)]))
+                val = gen.record(rng, m, allow_const=False)[0]
+            elif attr == 'dt':
+                val = dt * float(rng.choice([0.5, 2.0, 1.0]))
+            elif attr == 'label':
+                val = 'renamed'
+            else:
+                val = np.sort(10.0 ** rng.uniform(-1, 1.3, size=int(rng.choice([1, 2, 3, 30]))))
+            ops.append({'op': 'assign', 'attr': attr, 'value': val,
+                        'container': ['list', 'tuple', 'ndarray'][int(rng.integers(3))]})
+            continue
+        if kind == 'bad-series':
+            m = int(rng.choice([n + 1, max(n - 1, 1), 1, 2 * n]))
+            ops.append({'op': kind, 'how': 'length', 'series': rng.normal(size=m),
+                        'container': ['list', 'tuple', 'ndarray'][int(rng.integers(3))]})
+            continue
+        if kind == 'bad-signal':
+            how = ['length', 'dt', 'non-signal'][int(rng.integers(3))]
+            m = int(rng.choice([n + 1, max(n - 1, 1), 2 * n])) if how == 'length' else n
+            ops.append({'op': kind, 'how': how, 'series': rng.normal(size=m),
+                        'dt_factor': float(rng.choice([2.0, 0.5, 1.01, 0.999])),
+                        'other_cls': 'AccSignal' if rng.random() < 0.5 else 'Signal'})
+            continue
+        if kind == 'bad-butter':
+            ops.append({'op': kind, 'how': ['corner>=nyquist', 'corner>=nyquist', 'three-corners', 'scalar'][
+                int(rng.integers(4))], 'factor': float(rng.choice([1.0, 1.2, 3.0])), 'ftype': TYPES[int(rng.integers(3))],
+                'order': int(rng.integers(1, 5)), 'gibbs': GIBBS[int(rng.integers(4))]})
             continue
         if kind == 'reset':
             m = int(rng.choice([n, n // 2 + 20, 2 * n, 41]))
@@ -1785,7 +2127,11 @@ def gen_history(rng):
             ops.append({'op': 'read', 'names': [HISTORY_READS[int(j)] for j in rng.integers(len(HISTORY_READS), size=k)]})
         else:
             ops.append(_gen_op(rng, kind, n, dt))
-    return {'x': x, 'dt': dt, 'cls': 'AccSignal' if rng.random() < 0.7 else 'Signal', 'ops': ops, 'record_class': cls}
+    # one more call on every object that was left alone after a copy (its length is whatever it was then: only calls that
+    # do not need a series of matching length)
+    final = [_gen_op(rng, ['butter', 'poly', 'const', 'runavg'][int(rng.integers(4))], 41, dt) for _ in range(nfork)]
+    return {'x': x, 'dt': dt, 'cls': 'AccSignal' if rng.random() < 0.7 else 'Signal', 'ops': ops, 'final_ops': final,
+            'record_class': cls}
 
 
 def gen_state(rng, i):
@@ -1794,17 +2140,21 @@ def gen_state(rng, i):
     dt = float(rng.choice([0.005, 0.01, 0.02]))
     dtype = _pick_dtype(rng, 0.6)
     x, cx = typed_record(rng, n, dtype)
-    y, cy = typed_record(rng, n, dtype)
-    return {'x': x, 'y': y, 'dt': dt, 'call': _gen_op(rng, kind, n, dt),
+    # the record in between: same shape (60 %) or another length, same call or the same kind of call with other options
+    m = n if rng.random() < 0.6 else int(rng.choice([40, 64, 200, 1000, n + 1, 2 * n]))
+    y, cy = typed_record(rng, m, dtype)
+    call = _gen_op(rng, kind, n, dt)
+    call_b = _gen_op(rng, kind, m, dt) if (m != n or rng.random() < 0.5) else None
+    return {'x': x, 'y': y, 'dt': dt, 'call': call, 'call_b': call_b,
             'form': FORMS[int(rng.integers(len(FORMS)))] if rng.random() < 0.5 else 'array',
             'cls': 'AccSignal' if rng.random() < 0.5 else 'Signal', 'classes': [cx, cy]}
 
 
 # ------------------------------------------------------------------------------------------------------ workload
 COUNTS = {   # per shard
-    'quick': {'sine': 60, 'sine_seq': 8, 'linear': 60, 'container': 6, 'short': 2, 'detrend': 70, 'add': 110,
-              'runavg': 80, 'history': 10, 'state': 18},
-    'thorough': {'sine': 900, 'sine_seq': 150, 'linear': 1200, 'container': 100, 'short': 6, 'detrend': 2000,
+    'quick': {'sine': 60, 'edge': 15, 'sine_seq': 8, 'linear': 60, 'container': 6, 'short': 2, 'detrend': 70, 'add': 110,
+              'runavg': 80, 'history': 16, 'state': 18},
+    'thorough': {'sine': 900, 'edge': 180, 'sine_seq': 150, 'linear': 1200, 'container': 100, 'short': 6, 'detrend': 2000,
                  'add': 3300, 'runavg': 3000, 'history': 300, 'state': 600},
 }
 
@@ -1852,6 +2202,29 @@ def run_shard(ctx):
             ctx.observe('workload.extreme-scale.sine')
         case_sine(eqsig, ctx, p)
 
+    # -- corners at the ends of the normalised cut-off range (checklist 26): kind x type x gibbs x order stratified
+    for j, p in enumerate(pinned_edge_sines()):
+        if j % nsh != sh:
+            continue
+        g = O.butter_gain_sq(p['f'], p['dt'], p['order'], p['lo'], p['hi'])
+        ctx.case(_dig('sine', p), nontrivial=g >= 1e-4, cls='sine-edge-pinned-%s' % _ftype(p['lo'], p['hi']), sample=p)
+        case_sine(eqsig, ctx, p)
+    estrata = [(k, t, o, g) for g in GIBBS for o in (1, 2, 3, 4) for t in TYPES for k in EDGE_KINDS]
+    for c in range(cnt['edge']):
+        if ctx.out_of_time():
+            ctx.observe('out-of-time.sine-edge')
+            break
+        gi = c * nsh + sh
+        k, t, o, g = estrata[(gi + (gi // len(estrata)) * 7) % len(estrata)]
+        p = gen_edge_sine(rng, t, g, o, k, ctx)
+        if p is None:
+            ctx.observe('sine-edge.no-admissible-design')
+            continue
+        gsq = O.butter_gain_sq(p['f'], p['dt'], p['order'], p['lo'], p['hi'])
+        ctx.case(_dig('sine', p), nontrivial=gsq >= 1e-4, cls='sine-edge-%s-%s' % (p['edge'], _ftype(p['lo'], p['hi'])),
+                 sample=p)
+        case_sine(eqsig, ctx, p)
+
     # -- sequences of calls that reuse ONE cut-off container object (float64 / int ndarray, list, tuple)
     for c in range(cnt['sine_seq']):
         if ctx.out_of_time():
@@ -1884,6 +2257,8 @@ def run_shard(ctx):
             ctx.observe('workload.extreme-scale.linear')
         if t == 'band' and (p['hi'] - p['lo']) < 0.11 * p['lo']:
             ctx.observe('workload.narrow-band.linear')
+        if p.get('edge'):
+            ctx.observe('workload.corner-%s.linear' % p['edge'])
         case_linear(eqsig, ctx, p)
 
     for c in range(cnt['container']):
@@ -1994,6 +2369,10 @@ def _min_evals():
         for c in ('butter.sine.interior==|H|^2*sine', 'butter.sine.gain==|H|^2', 'butter.sine.zero-phase',
                   'butter.sine.same-sinusoid'):
             m[c] = sine // 2
+        for k in EDGE_KINDS:
+            # 'both-ends' exists for band-pass only (a third of its stratum; the rest goes to top-1% / below-1e-3)
+            m['butter.sine.corner-%s.interior==|H|^2*sine' % k] = cnt['edge'] * nsh // ((6 if k == 'both-ends' else 2)
+                                                                                          * len(EDGE_KINDS))
         for c in ('butter.length-preserved', 'butter.dt-preserved', 'butter.finite-output',
                   'butter.cutoff-argument-unchanged'):
             m[c] = (sine + 4 * lin) // 2
@@ -2030,9 +2409,16 @@ def _min_evals():
         m['runavg==mean-of-original-window'] = run // 2
         m['runavg.length+dt-preserved'] = run // 2
         m['history.call==same-call-on-fresh-object'] = cnt['history'] * nsh * 2
-        m['history.deepcopy-source-unchanged'] = cnt['history'] * nsh // 5
+        m['history.deepcopy-source-unchanged'] = cnt['history'] * nsh // 8
+        m['history.pickle-source-unchanged'] = cnt['history'] * nsh // 8
+        m['history.copy-source-unchanged'] = cnt['history'] * nsh // 8
+        m['history.deepcopy-equals-source'] = cnt['history'] * nsh // 8
+        m['history.pickle-equals-source'] = cnt['history'] * nsh // 8
+        m['history.attribute-assignment-all-or-nothing'] = cnt['history'] * nsh // 4
+        m['history.refused-call-leaves-object-unchanged'] = cnt['history'] * nsh // 3
         for o in STATE_OPS:
             m['state.first-result-unchanged-after-second-call.%s' % o] = st // (2 * len(STATE_OPS))
+            m['state.third-call==first-call.%s' % o] = st // (2 * len(STATE_OPS))
         m['state.twin-object-unchanged'] = st // 2
         m['state.caller-array-unchanged'] = st // 2
         out[tier] = m
